@@ -84,19 +84,65 @@ func contractMentions(fc *FuncContract, p string) bool {
 	return false
 }
 
-// functionsFor: functions whose contract carries clauses tagged with the
-// property, plus every function that calls a function with a P-tagged
-// precondition (so that pre obligations are generated at all call sites).
-func (e *Engine) functionsFor(p string) []*ssa.Function {
-	want := map[*ssa.Function]bool{}
-	preTagged := map[string]bool{} // contract keys with P-tagged requires
-	for key, fc := range e.cs.Funcs {
-		for _, r := range fc.Requires {
-			if hasProp(r.Props, p) {
-				preTagged[key] = true
+// taggedCalls: does f directly call (statically or through an interface) a
+// function whose contract has a precondition tagged with p?
+func (e *Engine) relevantFuncs(p string) map[*ssa.Function]bool {
+	direct := map[*ssa.Function]bool{}
+	for _, f := range e.allFuncs {
+		if e.callsTaggedPre(f, p) {
+			direct[f] = true
+		}
+	}
+	// propagate through uncontracted repository callees (they are inlined or havocked)
+	rel := map[*ssa.Function]bool{}
+	for f := range direct {
+		rel[f] = true
+	}
+	for changed := true; changed; {
+		changed = false
+		for _, f := range e.allFuncs {
+			if rel[f] {
+				continue
+			}
+			for _, b := range f.Blocks {
+				for _, ins := range b.Instrs {
+					switch x := ins.(type) {
+					case ssa.CallInstruction:
+						c := x.Common()
+						var cands []*ssa.Function
+						if c.IsInvoke() {
+							cands = e.implementations(c)
+						} else if g := c.StaticCallee(); g != nil {
+							cands = []*ssa.Function{g}
+						}
+						for _, g := range cands {
+							if rel[g] && e.contractOf(g) == nil && e.inRepo(g) {
+								rel[f] = true
+								changed = true
+							}
+						}
+					case *ssa.MakeClosure:
+						if g := x.Fn.(*ssa.Function); rel[g] && e.contractOf(g) == nil {
+							rel[f] = true
+							changed = true
+						}
+					}
+				}
 			}
 		}
 	}
+	return rel
+}
+
+// functionsFor: the functions verified on their own for property p:
+// (1) functions whose contract mentions p, (2) relevant functions (see
+// relevantFuncs) that no verified function inlines: roots without static
+// callers, interface implementations, address-taken functions and functions
+// too large to inline.  Uncontracted helpers are covered by inlining; the
+// caller checks afterwards that every relevant function that was havocked
+// somewhere has been verified on its own (see runContractProperty).
+func (e *Engine) functionsFor(p string) []*ssa.Function {
+	want := map[*ssa.Function]bool{}
 	for _, f := range e.allFuncs {
 		if f.Synthetic != "" {
 			continue
@@ -106,45 +152,69 @@ func (e *Engine) functionsFor(p string) []*ssa.Function {
 			want[f] = true
 		}
 	}
-	if len(preTagged) > 0 {
-		for _, f := range e.allFuncs {
-			if fc := e.contractOf(f); fc != nil && fc.Trusted {
-				continue
+	rel := e.relevantFuncs(p)
+	hasStaticCaller := map[*ssa.Function]bool{}
+	for _, f := range e.allFuncs {
+		for _, b := range f.Blocks {
+			for _, ins := range b.Instrs {
+				switch x := ins.(type) {
+				case ssa.CallInstruction:
+					if g := x.Common().StaticCallee(); g != nil && !x.Common().IsInvoke() {
+						hasStaticCaller[g] = true
+					}
+				case *ssa.MakeClosure:
+					hasStaticCaller[x.Fn.(*ssa.Function)] = true
+				}
 			}
-			if f.Synthetic != "" {
-				continue
+		}
+	}
+	for f := range rel {
+		if f.Synthetic != "" || want[f] {
+			continue
+		}
+		if fc := e.contractOf(f); fc != nil {
+			if !fc.Trusted {
+				want[f] = true
 			}
-			for _, b := range f.Blocks {
+			continue
+		}
+		if f.Parent() != nil {
+			continue // closures: covered by inlining into their parent (checked)
+		}
+		if !hasStaticCaller[f] || e.addrTaken[f] || e.noInline(f) || e.isIfaceImpl(f) {
+			want[f] = true
+		}
+	}
+	var out []*ssa.Function
+	for f := range want {
+		out = append(out, f)
+	}
+	sort.Slice(out, func(i, j int) bool { return out[i].String() < out[j].String() })
+	return out
+}
+
+func (e *Engine) isIfaceImpl(f *ssa.Function) bool {
+	if f.Signature.Recv() == nil {
+		return false
+	}
+	if e.ifaceImplCache == nil {
+		e.ifaceImplCache = map[*ssa.Function]bool{}
+		for _, g := range e.allFuncs {
+			for _, b := range g.Blocks {
 				for _, ins := range b.Instrs {
-					ci, ok := ins.(ssa.CallInstruction)
-					if !ok {
-						continue
-					}
-					c := ci.Common()
-					if c.IsInvoke() {
-						if fc := e.ifaceContract(c); fc != nil {
-							for _, r := range fc.Requires {
-								if hasProp(r.Props, p) {
-									want[f] = true
-								}
-							}
-						}
-						for _, g := range e.implementations(c) {
-							if fc := e.contractOf(g); fc != nil {
-								for _, r := range fc.Requires {
-									if hasProp(r.Props, p) {
-										want[f] = true
+					if ci, ok := ins.(ssa.CallInstruction); ok && ci.Common().IsInvoke() {
+						for _, impl := range e.implementations(ci.Common()) {
+							e.ifaceImplCache[impl] = true
+							// promoted method wrappers call the real method
+							if impl.Synthetic != "" {
+								for _, bb := range impl.Blocks {
+									for _, in2 := range bb.Instrs {
+										if c2, ok := in2.(ssa.CallInstruction); ok {
+											if h := c2.Common().StaticCallee(); h != nil {
+												e.ifaceImplCache[h] = true
+											}
+										}
 									}
-								}
-							}
-						}
-						continue
-					}
-					if g := c.StaticCallee(); g != nil {
-						if fc := e.contractOf(g); fc != nil {
-							for _, r := range fc.Requires {
-								if hasProp(r.Props, p) {
-									want[f] = true
 								}
 							}
 						}
@@ -153,28 +223,7 @@ func (e *Engine) functionsFor(p string) []*ssa.Function {
 			}
 		}
 	}
-	var out []*ssa.Function
-	for f := range want {
-		// anonymous functions are verified on their own only if they have a contract
-		if f.Parent() != nil && e.contractOf(f) == nil {
-			want[f.Parent()] = true
-			continue
-		}
-		out = append(out, f)
-	}
-	// parents added late
-	seen := map[*ssa.Function]bool{}
-	for _, f := range out {
-		seen[f] = true
-	}
-	for f := range want {
-		if !seen[f] && (f.Parent() == nil || e.contractOf(f) != nil) {
-			out = append(out, f)
-			seen[f] = true
-		}
-	}
-	sort.Slice(out, func(i, j int) bool { return out[i].String() < out[j].String() })
-	return out
+	return e.ifaceImplCache[f]
 }
 
 func cmdCheck(args []string) int {
@@ -227,10 +276,31 @@ func cmdCheck(args []string) int {
 func runContractProperty(e *Engine, res *checkResult, timeout int, two bool, work string, stats *solveStats) {
 	p := res.prop
 	funcs := e.functionsFor(p)
+	rel := e.relevantFuncs(p)
+	byName := map[string]*ssa.Function{}
+	for _, f := range e.allFuncs {
+		byName[f.String()] = f
+	}
+	verified := map[*ssa.Function]bool{}
 	var obls []*Obligation
 	inlinedAll := map[string]bool{}
-	for _, f := range funcs {
+	havockedAll := map[string]bool{}
+	for round := 0; len(funcs) > 0 && round < 10; round++ {
+	 var next []*ssa.Function
+	 for _, f := range funcs {
+	  if verified[f] {
+		continue
+	  }
+	  verified[f] = true
 	  for _, ft := range e.verifyFuncAll(f, e.contractOf(f), false) {
+		for k := range ft.havocked {
+			if !havockedAll[k] {
+				havockedAll[k] = true
+				if g := byName[k]; g != nil && rel[g] && !verified[g] && e.contractOf(g) == nil && g.Parent() == nil {
+					next = append(next, g)
+				}
+			}
+		}
 		for k := range ft.inlined {
 			inlinedAll[k] = true
 		}
@@ -253,6 +323,8 @@ func runContractProperty(e *Engine, res *checkResult, timeout int, two bool, wor
 			}
 		}
 	  }
+	 }
+	 funcs = next
 	}
 	obls = append(obls, e.lemmaObligations(p)...)
 	obls = append(obls, e.scanObligations(p)...)
@@ -319,6 +391,9 @@ func finish(e *Engine, res *checkResult, stats *solveStats, t0 time.Time, work s
 	counted := 0
 	nKnown := 0
 	for _, o := range res.obls {
+		if o.Cover && o.Result != "sat" && o.Result != "unsat" {
+			continue // inconclusive vacuity check: neither counted nor a failure
+		}
 		if o.ok() {
 			discharged++
 			counted++
@@ -380,8 +455,16 @@ func finish(e *Engine, res *checkResult, stats *solveStats, t0 time.Time, work s
 		samples = append(samples, "no obligations generated")
 	}
 	kinds := map[string]int{}
+	coverSat, coverInconclusive := 0, 0
 	for _, o := range res.obls {
 		kinds[o.Kind]++
+		if o.Cover {
+			if o.Result == "sat" {
+				coverSat++
+			} else if o.Result != "unsat" {
+				coverInconclusive++
+			}
+		}
 	}
 	sort.Strings(res.funcs)
 	cov := map[string]any{
@@ -392,6 +475,7 @@ func finish(e *Engine, res *checkResult, stats *solveStats, t0 time.Time, work s
 		"samples":                  samples,
 		"functions_under_contract": res.funcs,
 		"obligations_by_kind":      kinds,
+		"vacuity_covers":           map[string]int{"satisfiable": coverSat, "inconclusive_not_refuted": coverInconclusive},
 		"by_backend":               stats.byBackend,
 		"solver_s":                 round2(stats.seconds),
 		"solver_queries":           stats.queries,
